@@ -1,14 +1,14 @@
 CONSTANTS
   W = 1
-  Limit = 4
+  Limit = 1
   L = 1
   Uds = {}
-  MaxConns = 6
+  MaxConns = 1
   MaxFaults = 0
-  MaxCmds = 0
+  MaxCmds = 3
   MaxErrs = 0
   MaxBare = 0
-  WakeAt = 5
+  WakeAt = 2
   IgnoreUnknownIdx = TRUE
   UnlinkOnDeregister = FALSE
   ResumeClearsBackoff = TRUE
@@ -26,10 +26,9 @@ CONSTANTS
   ReportOnlyIfBitSet = FALSE
   ResendWithoutCheck = FALSE
   RejoinAtIndex = FALSE
-  DropPausePair = FALSE
+  DropPausePair = TRUE
   TrackRepeat = FALSE
 SPECIFICATION Spec
 VIEW View
-INVARIANTS TypeOK C01_Conservation C01_ServedOnce C01_NoSilentDrop C02_Bound C02_NoForcedSend C03_NoLostWake C04_RoundRobin C04_BitsTrueWhenCalm C05_ListenerLive C05_UdsReachable C05_ConnErrNoDelay C05_TimerHasTimeout C08_NoPanic C08_NoSpin C08_NoGhostBit C08_NoDupHandles C08_FaultReportedOnce C08_NoLostIndex
-PROPERTIES Steps
+PROPERTIES StepCmdEffect
 CHECK_DEADLOCK FALSE
